@@ -740,20 +740,35 @@ fn extract_object_shape(
     schema: &Runtype,
     named_schemas: &[NamedSchema],
 ) -> Option<BTreeMap<String, Optionality<Runtype>>> {
+    extract_object_shape_visiting(schema, named_schemas, &mut vec![])
+}
+
+// `visiting`: the named types being looked into (`type C = D; type D = C` has no shape)
+fn extract_object_shape_visiting(
+    schema: &Runtype,
+    named_schemas: &[NamedSchema],
+    visiting: &mut Vec<RuntypeUUID>,
+) -> Option<BTreeMap<String, Optionality<Runtype>>> {
     match &schema.kind {
         RuntypeKind::Object {
             vs,
             indexed_properties,
         } if indexed_properties.is_none() => Some(vs.clone()),
-        RuntypeKind::Ref(r) => named_schemas
-            .iter()
-            .find(|it| it.name == *r)
-            .and_then(|it| extract_object_shape(&it.schema, named_schemas)),
+        RuntypeKind::Ref(r) => {
+            if visiting.contains(r) {
+                return None;
+            }
+            let target = named_schemas.iter().find(|it| it.name == *r)?;
+            visiting.push(r.clone());
+            let out = extract_object_shape_visiting(&target.schema, named_schemas, visiting);
+            visiting.pop();
+            out
+        }
         RuntypeKind::AllOf(vs) => {
             let mut acc = BTreeMap::new();
 
             for schema in vs {
-                let extracted = extract_object_shape(schema, named_schemas)?;
+                let extracted = extract_object_shape_visiting(schema, named_schemas, visiting)?;
 
                 for (key, value) in &extracted {
                     if let Some(existing) = acc.get(key)
